@@ -30,6 +30,9 @@ pub struct Family {
     pub adversary: Option<AdversaryFn>,
     /// The recorded adversary actions are only legal relative to this exact workload (packet
     /// numbering, timing): the minimiser must not remove application operations.
+    /// Run indices this family takes out of the weighted rotation (families with weight 0 that
+    /// were added later: the mapping of every other run index to its family stays what it was).
+    pub claims: Option<fn(u64) -> bool>,
     pub keep_workload: bool,
     /// Replaces the standard single execution (twin-run comparisons).
     pub custom: Option<CustomRunFn>,
@@ -57,6 +60,11 @@ impl CheckDef {
         // development aid: VERIF_ONLY_FAMILY=<name> sends every run to one family
         if let Ok(name) = std::env::var("VERIF_ONLY_FAMILY") {
             if let Some(f) = self.family_named(&name) {
+                return f;
+            }
+        }
+        for f in self.families.iter() {
+            if f.claims.map_or(false, |c| c(run)) {
                 return f;
             }
         }
